@@ -319,9 +319,12 @@ def replay_file(prop, path):
         mod = importlib.import_module(f"vf.rt.{prop}")
         if hasattr(mod, "replay"):
             ok = mod.replay(doc)
+            print("scenario re-run on the current tree:", "the clause holds" if ok else "the clause still fails")
             if not ok:
                 print(f"VIOLATION property={prop} replay={path}")
                 return 1
+        else:
+            print("no native replay available for this scenario")
         return 0
     return 0
 
